@@ -231,15 +231,45 @@ func drawShape(t *rapid.T, maxOps int) (lens []int, maxprocs int) {
 	return
 }
 
+// drawPerts draws the perturbation points. Three styles per case: burst (no perturbation at all:
+// maximal contention on the component's lock), yields only, and the full mix.
 func drawPerts(t *rapid.T, lens []int) [][]pert {
+	style := rapid.SampledFrom([]int{0, 0, 0, 1, 1, 2, 2, 2, 2}).Draw(t, "pertStyle")
 	res := make([][]pert, len(lens))
 	for g, n := range lens {
 		res[g] = make([]pert, n)
 		for i := range res[g] {
-			res[g][i] = genPert().Draw(t, "p")
+			switch style {
+			case 0:
+			case 1:
+				if rapid.Bool().Draw(t, "yield") {
+					res[g][i] = pert{Kind: 1}
+				}
+			default:
+				res[g][i] = genPert().Draw(t, "p")
+			}
 		}
 	}
 	return res
+}
+
+// drawFocus picks 0-3 operation kinds that the programs of this case use most of the time, so that
+// many goroutines run the same few operations against each other.
+func drawFocus(t *rapid.T, ops []int) []int {
+	n := rapid.SampledFrom([]int{0, 0, 1, 2, 2, 3}).Draw(t, "nfocus")
+	var f []int
+	for i := 0; i < n; i++ {
+		f = append(f, rapid.SampledFrom(ops).Draw(t, "focus"))
+	}
+	return f
+}
+
+// pickOp draws an operation kind: three times out of four from the focus set when there is one.
+func pickOp(t *rapid.T, ops, focus []int) int {
+	if len(focus) > 0 && rapid.IntRange(0, 3).Draw(t, "focused") > 0 {
+		return rapid.SampledFrom(focus).Draw(t, "op")
+	}
+	return rapid.SampledFrom(ops).Draw(t, "op")
 }
 
 // ---------------------------------------------------------------------------------------------
